@@ -439,6 +439,9 @@ theorem step_refines (m : St) (s : SpecSt) (op : Op) (h : R m s) (hb : s.live.le
             simp only [hx, hx', if_false]; rw [hg]; simp
         · simp only [List.map_cons, List.nodup_cons]
           exact ⟨fun hmem => hd ((isLive_iff _ _).mpr hmem), hn⟩
+  | soak res G rounds b =>
+    refine ⟨?_, ⟨hr, hl, hg, hn⟩, by simp [specStep, opSize]⟩
+    simp only [step, specStep]; rw [hg, hr]
   | sched id0 res bs sch =>
     simp only [step, specStep, opSize]
     simp only [opSize] at hb
@@ -538,6 +541,7 @@ theorem specStep_cap (z : Nat) (s : SpecSt) (o : Op) (hs : seqOp o = true)
   cases o with
   | load rs => cases hs
   | sched a b c d => cases hs
+  | soak a b c d => cases hs
   | conc res => exact ⟨h, rfl⟩
   | exit id =>
     refine ⟨?_, rfl⟩
@@ -718,5 +722,30 @@ theorem run_snoc (s0 : St) (h : List Op) (o : Op) :
   induction h generalizing s0 with
   | nil => simp [run]
   | cons a r ih => simp only [List.cons_append, run, ih]
+
+end Sentinel.Iso
+
+namespace Sentinel.Iso
+
+theorem minThr_mem (rules : List Rule) (N : Nat) (h : minThr rules = some N) : ∃ r ∈ rules, r.thr.toNat = N := by
+  induction rules generalizing N with
+  | nil => cases h
+  | cons r rs ih =>
+    unfold minThr at h
+    cases hm : minThr rs with
+    | none => rw [hm] at h; simp only [Option.some.injEq] at h; exact ⟨r, by simp, h⟩
+    | some m =>
+      rw [hm] at h
+      simp only [Option.some.injEq] at h
+      obtain ⟨q, hq, hqm⟩ := ih m hm
+      by_cases hle : r.thr.toNat ≤ m
+      · exact ⟨r, by simp, by rw [← h]; exact (min_eq_left hle).symm⟩
+      · exact ⟨q, by simp [hq], by rw [← h, hqm]; exact (min_eq_right (by omega)).symm⟩
+
+theorem batch_pos_or_zero (b : UInt32) : 1 ≤ b.toNat + (if b = 0 then 1 else 0) := by
+  by_cases h : b = 0
+  · simp [h]
+  · have : b.toNat ≠ 0 := fun e => h (UInt32.toNat_inj.mp (by simpa using e))
+    simp only [h, if_false]; omega
 
 end Sentinel.Iso
